@@ -6,17 +6,18 @@
 From MW Require Import PyBase Template TemplateProofs.
 
 Section C10.
-Variables (name value : Type) (eqb : name -> name -> bool) (num : name -> option nat) (blank : value -> value).
+Variables (name value : Type) (eqb : name -> name -> bool) (num : name -> option nat) (blank : value -> value)
+          (unescapable : value -> bool).
 Hypothesis eqb_spec : forall a b, eqb a b = true <-> a = b.
 
 (* Hidden keys are positional: the i-th hidden parameter is named i.  This holds after ANY
    sequence of add / remove calls (the Builder establishes it for parsed templates: C03). *)
 Theorem C10_hidden_inv_reachable : forall ops ps,
-  Hidden name value num ps -> Hidden name value num (run name value eqb num blank ps ops).
-Proof. exact (hidden_inv_reachable_lemma name value eqb num blank). Qed.
+  Hidden name value num ps -> Hidden name value num (run name value eqb num blank unescapable ps ops).
+Proof. exact (hidden_inv_reachable_lemma name value eqb num blank unescapable). Qed.
 
-Theorem C10_has_after_add : forall n v ps, has name value eqb n (add name value eqb num blank n v ps) = true.
-Proof. exact (has_after_add_lemma name value eqb num blank eqb_spec). Qed.
+Theorem C10_has_after_add : forall n v ps, has name value eqb n (add name value eqb num blank unescapable n v ps) = true.
+Proof. exact (has_after_add_lemma name value eqb num blank unescapable eqb_spec). Qed.
 
 Theorem C10_not_has_after_remove : forall n ps, has name value eqb n (rem name value eqb blank n false false ps) = false.
 Proof. exact (not_has_after_remove_lemma name value eqb blank). Qed.
@@ -45,6 +46,6 @@ Example C10_example :
   let ps := [{| pn := 1%Z; shown := false; pv := 10%Z |}; {| pn := 2%Z; shown := false; pv := 11%Z |};
              {| pn := 3%Z; shown := false; pv := 12%Z |}] in
   Hidden Z Z znum ps /\
-  map (fun p => (pn Z Z p, shown Z Z p)) (run Z Z Z.eqb znum (fun _ => 0%Z) ps [ORemove Z Z 1%Z false; OAdd Z Z 1%Z 13%Z])
-  = [(2%Z, true); (3%Z, true); (1%Z, false)].
+  map (fun p => (pn Z Z p, shown Z Z p)) (run Z Z Z.eqb znum (fun _ => 0%Z) (fun v => Z.ltb v 0) ps [ORemove Z Z 1%Z false; OAdd Z Z 1%Z 13%Z; ORemove Z Z 2%Z false; OAdd Z Z 2%Z (-5)%Z])
+  = [(3%Z, true); (1%Z, false); (2%Z, true)].
 Proof. vm_compute. split; reflexivity. Qed.
